@@ -106,9 +106,13 @@ ReadVerdict ==
                   \/ (k = "read:remaining" /\ Ev.rem # left - Ev.n)
                   \/ (k = "read:stale-bytes" /\ Ev.stale)}
 
+\* skip is exact in a fault-free call; once the failure exists a short skip that says so (return value and
+\* remaining() agree) is a clean, reported degradation (the API returns "values actually skipped")
 SkipVerdict ==
     LET left == Rows(done[rd.g][rd.c]) - rd.pos
-    IN IF Ev.n # Min2(Ev.k, left) THEN {"skip:count"} ELSE IF Ev.rem # left - Ev.n THEN {"read:remaining"} ELSE {}
+        full == Min2(Ev.k, left)
+    IN IF Ev.n > full \/ (Ev.n < full /\ ~(delivered \/ Ev.hit)) THEN {"skip:count"}
+       ELSE IF Ev.rem # left - Ev.n THEN {"read:remaining"} ELSE {}
 
 BatchColVerdict(j) ==
     LET c == rd.proj[j] + 1
@@ -213,10 +217,12 @@ Bump(s) ==
                  !.hitOk = IF call /\ Ev.hit /\ ~err THEN @ + 1 ELSE @,
                  !.lateErr = IF err /\ ~Ev.hit /\ ~tainted THEN @ + 1 ELSE @,
                  !.onTainted = IF tainted THEN @ + 1 ELSE @,
-                 !.owedChecks = IF call /\ Owed THEN @ + 1 ELSE @]
+                 !.owedChecks = IF call /\ Owed THEN @ + 1 ELSE @,
+                 !.shortReads = IF Ev.e \in {"Read", "SkipRows"} /\ Owed /\ Ev.n < Min2(Ev.k, Rows(done[rd.g][rd.c]) - rd.pos)
+                                THEN @ + 1 ELSE @]
 
 Stats0 == [execs |-> 0, events |-> 0, failed |-> 0, hits |-> 0, hitErr |-> 0, hitOk |-> 0, lateErr |-> 0,
-           onTainted |-> 0, owedChecks |-> 0]
+           onTainted |-> 0, owedChecks |-> 0, shortReads |-> 0]
 
 TInit2 == /\ WInit /\ AInit /\ rd = RdInit /\ sch = <<>>
           /\ l = 1 /\ skip = FALSE /\ bad = <<>> /\ stats = Stats0
